@@ -42,12 +42,24 @@ type cfg struct {
 	label string
 	class string // what this configuration is a boundary of
 	empty bool   // label only, no files (volumes too small to hold the sample tree)
+	ss    int64  // logical sector size the disk is opened with (0: the kind's usual one, see secSize)
+	start int64  // first sector of the partition (0: partStartSec)
+}
+
+func mkcfg(place, kind, stale string, size int64, label, class string, empty bool) cfg {
+	return cfg{place: place, kind: kind, stale: stale, size: size, label: label, class: class, empty: empty}
 }
 
 func (c cfg) String() string {
 	e := ""
 	if c.empty {
 		e = " empty"
+	}
+	if c.ss != 0 {
+		e += fmt.Sprintf(" ss=%d", c.ss)
+	}
+	if c.start != 0 {
+		e += fmt.Sprintf(" startsec=%d", c.start)
 	}
 	return fmt.Sprintf("place=%s kind=%s stale=%s size=%d label=%q class=%s%s", c.place, c.kind, c.stale, c.size, c.label, c.class, e)
 }
@@ -154,7 +166,7 @@ func configs(c *hx.Ctx) []cfg {
 					continue
 				}
 				sz := pairSize(k.Name, st)
-				out = append(out, cfg{pl, k.Name, st, sz, nextLabel(), "stale-matrix", false})
+				out = append(out, mkcfg(pl, k.Name, st, sz, nextLabel(), "stale-matrix", false))
 			}
 		}
 	}
@@ -166,7 +178,7 @@ func configs(c *hx.Ctx) []cfg {
 				if st == "random" && (s/stepSec)%3 != 0 {
 					continue
 				}
-				out = append(out, cfg{"whole", kind, st, s * 512, nextLabel(), class, false})
+				out = append(out, mkcfg("whole", kind, st, s*512, nextLabel(), class, false))
 			}
 		}
 	}
@@ -178,15 +190,15 @@ func configs(c *hx.Ctx) []cfg {
 	sweep("fat12", 1000, 1030, step, "fat12-512KiB")         // root entries 112 -> 224
 	// FAT16 maximum (2 GiB, spc=64): the count crosses 65525 a few clusters below 2 GiB
 	for d := int64(0); d <= int64(c.N(6, 24)); d++ {
-		out = append(out, cfg{"whole", "fat16", "blank", 2*GB - d*64*512, nextLabel(), "fat16-max-65525", false})
+		out = append(out, mkcfg("whole", "fat16", "blank", 2*GB-d*64*512, nextLabel(), "fat16-max-65525", false))
 	}
 	for _, mb := range []int64{32, 33, 128, 129, 256, 257, 512, 513, 1024, 1025} { // spc switches
-		out = append(out, cfg{"whole", "fat16", "blank", mb * MB, nextLabel(), "fat16-spc-switch", false})
+		out = append(out, mkcfg("whole", "fat16", "blank", mb*MB, nextLabel(), "fat16-spc-switch", false))
 	}
 	// FAT12 / FAT16 / FAT32 minimum sizes
 	for _, s := range []int64{4, 5, 8, 16, 33, 34, 40, 64, 80, 100, 128, 200} {
-		out = append(out, cfg{"whole", "fat12", "blank", s * 512, nextLabel(), "fat12-min", false})
-		out = append(out, cfg{"whole", "fat32", "blank", s * 512, nextLabel(), "fat32-min", false})
+		out = append(out, mkcfg("whole", "fat12", "blank", s*512, nextLabel(), "fat12-min", false))
+		out = append(out, mkcfg("whole", "fat32", "blank", s*512, nextLabel(), "fat32-min", false))
 	}
 	// tiny volumes, label only: every sector count from the minimum on
 	for sct := int64(4); sct <= int64(c.N(72, 200)); sct++ {
@@ -195,36 +207,36 @@ func configs(c *hx.Ctx) []cfg {
 	for sct := int64(64); sct <= int64(c.N(160, 400)); sct += 3 {
 		out = append(out, cfg{place: "whole", kind: "fat32", stale: "random", size: sct * 512, label: nextLabel(), class: "fat32-tiny", empty: true})
 	}
-	out = append(out, cfg{"whole", "fat12", "blank", 128 * MB, nextLabel(), "fat12-max", false})
-	out = append(out, cfg{"whole", "fat12", "blank", 128*MB - 512, nextLabel(), "fat12-max", false})
-	out = append(out, cfg{"whole", "fat12", "blank", 1440 * KB, nextLabel(), "fat12-floppy", false})
+	out = append(out, mkcfg("whole", "fat12", "blank", 128*MB, nextLabel(), "fat12-max", false))
+	out = append(out, mkcfg("whole", "fat12", "blank", 128*MB-512, nextLabel(), "fat12-max", false))
+	out = append(out, mkcfg("whole", "fat12", "blank", 1440*KB, nextLabel(), "fat12-floppy", false))
 	// FAT32 cluster-size switch at 260 MiB, small FAT32 whose count is below 65525, 4 GiB crossing
 	for _, s := range []int64{1 * MB, 33 * MB, 64 * MB, 260 * MB, 260*MB + 512, 261 * MB, 512 * MB} {
-		out = append(out, cfg{"whole", "fat32", "random", s, nextLabel(), "fat32-sizes", false})
+		out = append(out, mkcfg("whole", "fat32", "random", s, nextLabel(), "fat32-sizes", false))
 	}
 	if c.Thorough() {
 		for _, s := range []int64{4*GB - 512, 4 * GB, 4*GB + 4096, 8 * GB, 8*GB + 4096, 17 * GB} {
-			out = append(out, cfg{"whole", "fat32", "blank", s, nextLabel(), "fat32-large", false})
+			out = append(out, mkcfg("whole", "fat32", "blank", s, nextLabel(), "fat32-large", false))
 		}
-		out = append(out, cfg{"gpt", "fat32", "fat16", 5 * GB, nextLabel(), "fat32-large", false})
+		out = append(out, mkcfg("gpt", "fat32", "fat16", 5*GB, nextLabel(), "fat32-large", false))
 	}
 	// ext4 / iso9660 / squashfs sizes
 	for _, s := range []int64{1 * MB, 2 * MB, 5 * MB, 64 * MB, 100 * MB, 513 * MB} {
-		out = append(out, cfg{"whole", "ext4", "blank", s, nextLabel(), "ext4-sizes", false})
-		out = append(out, cfg{"gpt", "ext4", "random", s, nextLabel(), "ext4-sizes", false})
+		out = append(out, mkcfg("whole", "ext4", "blank", s, nextLabel(), "ext4-sizes", false))
+		out = append(out, mkcfg("gpt", "ext4", "random", s, nextLabel(), "ext4-sizes", false))
 	}
 	for _, s := range []int64{16 * MB, 33 * MB, 100 * MB, 300 * MB, 600 * MB} {
-		out = append(out, cfg{"whole", "ext4", "iso9660", s, nextLabel(), "ext4-over-iso", false})
-		out = append(out, cfg{"mbr", "ext4", "iso9660", s, nextLabel(), "ext4-over-iso", false})
+		out = append(out, mkcfg("whole", "ext4", "iso9660", s, nextLabel(), "ext4-over-iso", false))
+		out = append(out, mkcfg("mbr", "ext4", "iso9660", s, nextLabel(), "ext4-over-iso", false))
 	}
 	if c.Thorough() {
-		out = append(out, cfg{"whole", "ext4", "blank", 3 * GB, nextLabel(), "ext4-sizes", false})
-		out = append(out, cfg{"whole", "ext4", "iso9660", 3 * GB, nextLabel(), "ext4-over-iso", false})
+		out = append(out, mkcfg("whole", "ext4", "blank", 3*GB, nextLabel(), "ext4-sizes", false))
+		out = append(out, mkcfg("whole", "ext4", "iso9660", 3*GB, nextLabel(), "ext4-over-iso", false))
 	}
 	for _, s := range []int64{38 * KB, 40 * KB, 64 * KB, 1 * MB, 700 * MB} {
-		out = append(out, cfg{"whole", "iso9660", "random", s, nextLabel(), "iso-sizes", false})
-		out = append(out, cfg{"whole", "squashfs", "random", s, nextLabel(), "sqfs-sizes", false})
-		out = append(out, cfg{"mbr", "squashfs", "blank", s, nextLabel(), "sqfs-sizes", false})
+		out = append(out, mkcfg("whole", "iso9660", "random", s, nextLabel(), "iso-sizes", false))
+		out = append(out, mkcfg("whole", "squashfs", "random", s, nextLabel(), "sqfs-sizes", false))
+		out = append(out, mkcfg("mbr", "squashfs", "blank", s, nextLabel(), "sqfs-sizes", false))
 	}
 	// 4. random configurations: log-uniform sizes inside each type's range, random stale content, placement, label
 	r := c.Rng.Fork()
@@ -247,21 +259,62 @@ func configs(c *hx.Ctx) []cfg {
 		for j := r.Intn(12); j > 0; j-- {
 			lb = append(lb, "ABCDEFGHIJKLMNOPQRSTUVWXYZ0123456789_-"[r.Intn(38)])
 		}
-		out = append(out, cfg{hx.Pick(r, []string{"whole", "whole", "gpt", "mbr"}), k, hx.Pick(r, stales), sz, string(lb), "random", false})
+		out = append(out, mkcfg(hx.Pick(r, []string{"whole", "whole", "gpt", "mbr"}), k, hx.Pick(r, stales), sz, string(lb), "random", false))
 	}
 	// 3. labels on every labelled type and placement
 	for _, pl := range []string{"whole", "gpt", "mbr"} {
 		for _, k := range []string{"fat12", "fat16", "fat32", "ext4"} {
 			for _, l := range labels {
-				out = append(out, cfg{pl, k, "blank", midSize(k), l, "labels", false})
+				out = append(out, mkcfg(pl, k, "blank", midSize(k), l, "labels", false))
 			}
 		}
 	}
+	// 5. regimes the classes above do not reach (appended last: the ids of the earlier configurations stay put)
+	// (a) a partition that starts beyond 4 GiB on a sparse device: byte offsets no longer fit 32 bits
+	for _, pl := range []string{"gpt", "mbr"} {
+		for _, k := range ml.Kinds {
+			out = append(out, cfg{place: pl, kind: k.Name, stale: hx.Pick(r, []string{"random", "fat16", "ext4"}), size: pairSize(k.Name, "ext4"),
+				label: nextLabel(), class: "start-beyond-4GiB", start: (4*GB + 3*MB) / secSize(k.Name)})
+		}
+	}
+	// (b) 4096-byte logical sectors for the kinds that are otherwise made at 512 (iso9660 at 4096, squashfs at 8192)
+	for _, pl := range []string{"whole", "gpt", "mbr"} {
+		for _, k := range ml.Kinds {
+			ss := int64(4096)
+			if k.Name == "squashfs" {
+				ss = 8192
+			}
+			st := "random"
+			if pl == "whole" {
+				st = "fat16"
+				if k.Name == "fat16" {
+					st = "fat32"
+				}
+			}
+			out = append(out, cfg{place: pl, kind: k.Name, stale: st, size: midSize(k.Name), label: nextLabel(), class: "ss4096", ss: ss})
+		}
+	}
+	// (c) whole-disk sizes that are not a multiple of the sector size
+	for _, k := range ml.Kinds {
+		for _, odd := range []int64{1, 511, 2047} {
+			out = append(out, cfg{place: "whole", kind: k.Name, stale: "blank", size: midSize(k.Name) + odd, label: nextLabel(), class: "odd-size"})
+		}
+	}
+	// (d) labels at each type's maximum length (ext4: 16 bytes; iso9660 volume identifier: 32)
+	out = append(out, cfg{place: "whole", kind: "ext4", stale: "blank", size: 16 * MB, label: "SIXTEENCHARLABEL", class: "labels-max"})
+	out = append(out, cfg{place: "gpt", kind: "ext4", stale: "fat16", size: 16 * MB, label: "SIXTEENCHARLABEL", class: "labels-max"})
+	out = append(out, cfg{place: "whole", kind: "iso9660", stale: "blank", size: 16 * MB, label: "THIRTYTWO_CHARACTER_VOLUME_IDENT", class: "labels-max"})
+	// (e) a FAT32 volume reaching beyond 4 GiB (thorough has more of them)
+	out = append(out, cfg{place: "whole", kind: "fat32", stale: "blank", size: 4*GB + 4096, label: nextLabel(), class: "fat32-beyond-4GiB"})
 	return out
 }
 
 // knownTrigger names the recorded defect (if any) whose trigger predicate the configuration meets.
 func knownTrigger(g cfg) string {
+	if g.kind == "iso9660" && g.ss != 0 && g.ss != 2048 {
+		// the defect C06 records as iso-blocksize-descriptors, seen from GetFilesystem
+		return "iso-blocksize-unrecognised"
+	}
 	if g.kind == "iso9660" && g.place != "whole" {
 		return "iso-start-ignored"
 	}
@@ -286,7 +339,14 @@ type world struct {
 
 func setup(g cfg) (*world, error) {
 	w := &world{ss: secSize(g.kind)}
+	if g.ss != 0 {
+		w.ss = g.ss
+	}
 	ss := w.ss
+	partStartSec := int64(partStartSec)
+	if g.start != 0 {
+		partStartSec = g.start
+	}
 	switch g.place {
 	case "whole":
 		w.dev = memdev.New(g.size)
@@ -299,7 +359,7 @@ func setup(g cfg) (*world, error) {
 		if err != nil {
 			return nil, err
 		}
-		t := ml.GPTOne(partStartSec, uint64(secs))
+		t := ml.GPTOne(uint64(partStartSec), uint64(secs))
 		t.LogicalSectorSize, t.PhysicalSectorSize = int(ss), int(ss)
 		if err := d.Partition(t); err != nil {
 			return nil, fmt.Errorf("partition: %w", err)
@@ -314,7 +374,7 @@ func setup(g cfg) (*world, error) {
 		if err != nil {
 			return nil, err
 		}
-		t := ml.MBROne(partStartSec, uint32(secs))
+		t := ml.MBROne(uint32(partStartSec), uint32(secs))
 		t.LogicalSectorSize, t.PhysicalSectorSize = int(ss), int(ss)
 		if err := d.Partition(t); err != nil {
 			return nil, fmt.Errorf("partition: %w", err)
@@ -713,6 +773,11 @@ func runCase(c *hx.Ctx, id string, g cfg, r *hx.Rng) {
 		if !(probe == "none" && spc > 0 && tot >= meta && (tot-meta)/spc == 0) {
 			tag = "-"
 		}
+	case "iso-blocksize-unrecognised":
+		// explained only when nothing at all is found (the descriptors are not where any reader looks)
+		if probe != "none" {
+			tag = "-"
+		}
 	case "iso-start-ignored":
 		// everything about an iso9660 in a partition goes wrong the same way: it was written at offset 0
 	default:
@@ -760,8 +825,10 @@ func extras(c *hx.Ctx, r *hx.Rng) {
 				return "OpenBackend: " + err.Error()
 			}
 			if t, err := d.GetPartitionTable(); err == nil {
+				tableModelCase(c, id, dev, 512, t.Type())
 				return "blank disk has a partition table: " + t.Type()
 			}
+			tableModelCase(c, id, dev, 512, "none")
 			if fs, err := d.GetFilesystem(0); err == nil {
 				return "blank disk has a filesystem: " + ml.TypeName(fs.Type())
 			}
@@ -845,8 +912,10 @@ func extras(c *hx.Ctx, r *hx.Rng) {
 			}
 			t, err := d2.GetPartitionTable()
 			if err != nil {
+				tableModelCase(c, id, dev, 512, "none")
 				return "table not found: " + err.Error()
 			}
+			tableModelCase(c, id, dev, 512, t.Type())
 			want := "mbr"
 			if isGPT {
 				want = "gpt"
@@ -992,7 +1061,7 @@ func Run(c *hx.Ctx) {
 		}
 		if !c.Thorough() && c.Only == "" {
 			// quick: everything small, a seed-chosen third of the large volumes
-			if g.size > 300*MB && i%3 != third && g.class != "fat16-max-65525" {
+			if g.size > 300*MB && i%3 != third && g.class != "fat16-max-65525" && g.class != "fat32-beyond-4GiB" {
 				continue
 			}
 		}
@@ -1002,6 +1071,8 @@ func Run(c *hx.Ctx) {
 	c.StatN("configs-run", ran)
 	extras(c, c.Rng.Fork())
 	fat32Extras(c, c.Rng.Fork())
+	multiPart(c, c.Rng.Fork())
+	tableOverTable(c, c.Rng.Fork())
 	witnesses(c)
 }
 
@@ -1015,10 +1086,11 @@ func witnesses(c *hx.Ctx) {
 		g   cfg
 	}
 	for _, wt := range []wit{
-		{"ext4-create-keeps-boot-area", cfg{"whole", "ext4", "fat16", 16 * MB, "W", "witness", false}},
-		{"iso-start-ignored", cfg{"gpt", "iso9660", "blank", 8 * MB, "W", "witness", false}},
-		{"iso-probed-before-squashfs", cfg{"whole", "squashfs", "iso9660", 16 * MB, "W", "witness", false}},
-		{"fat12-zero-cluster-volume-undetected", cfg{"whole", "fat12", "blank", 5120, "W", "witness", true}},
+		{"ext4-create-keeps-boot-area", mkcfg("whole", "ext4", "fat16", 16*MB, "W", "witness", false)},
+		{"iso-start-ignored", mkcfg("gpt", "iso9660", "blank", 8*MB, "W", "witness", false)},
+		{"iso-probed-before-squashfs", mkcfg("whole", "squashfs", "iso9660", 16*MB, "W", "witness", false)},
+		{"fat12-zero-cluster-volume-undetected", mkcfg("whole", "fat12", "blank", 5120, "W", "witness", true)},
+		{"iso-blocksize-unrecognised", cfg{place: "whole", kind: "iso9660", stale: "blank", size: 16 * MB, label: "W", class: "witness", ss: 4096}},
 	} {
 		res, msg := probeOnce(c, wt.g)
 		// reproduced = the filesystem was created and is then not found as what it is
